@@ -99,7 +99,23 @@ def plan_st(draw, tier):
     # the oracle is evaluated after the last training call and after a drawn subset of the earlier ones (a stale
     # cache filled by an early query must not hide rows added later)
     early = [i for i in range(len(h.ops) - 1) if draw(st.booleans())]
-    return {"config": cfg, "ops": h.ops, "queries": queries, "check_after": early}
+    cdt = None
+    if draw(st.integers(0, 3)) == 0:
+        # stored and query contexts as arrays of a narrow or unsigned type (pixel values, counts): distances are those
+        # of the numbers, not of the type (for unsigned types the whole data set is shifted to be non-negative)
+        cdt = draw(st.sampled_from(["uint8", "int8", "uint16", "float32", "int32", "uint32"]))
+        if cdt.startswith("u"):
+            for op in h.ops:
+                op[3] = [[v + 4 for v in row] for row in op[3]]
+            queries = [[v + 4 for v in q] for q in queries]
+    return {"config": cfg, "ops": h.ops, "queries": queries, "check_after": early, "ctx_dtype": cdt}
+
+
+def rendered(plan, rows):
+    """The context rows as the plan says they are handed over (list of lists, or an ndarray of the drawn dtype)."""
+    if plan.get("ctx_dtype"):
+        return {"array": rows, "dtype": plan["ctx_dtype"]}
+    return rows
 
 
 def strategy(tier, ctx):
@@ -127,8 +143,10 @@ def evaluate(plan, ctx):
     arms = list(cfg["arms"])
     ev = ["np=" + which, "lp=" + cfg["lp"][0], "metric=" + metric]
     state = {"nt": False, "skipped": False}
+    if plan.get("ctx_dtype"):
+        ev.append("contexts_as_" + plan["ctx_dtype"])
     for i, op in enumerate(plan["ops"]):
-        o = ops.apply_op(mab, op)
+        o = ops.apply_op(mab, [op[0], op[1], op[2], rendered(plan, op[3])])
         if ops.is_exc(o):
             raise Violation("unexpected_exception", "op %d %s raised %s" % (i, op[0], ops.short(o)))
         dec += op[1]
@@ -152,7 +170,7 @@ def check_queries(plan, cfg, mab, arms, dec, rew, cx, origin, ev, state):
     for q in plan["queries"]:
         dist = [exact_dist(metric, q, x) for x in cx]
         row_seed = int(streams.clone_rng(mab._rng).randint(np.iinfo(np.int32).max, size=1)[0])
-        out = ops.apply_op(mab, ["predict_expectations", [q]])
+        out = ops.apply_op(mab, ["predict_expectations", rendered(plan, [q])])
         if ops.is_exc(out):
             raise Violation("unexpected_exception", "predict_expectations(%r) raised %s" % (q, ops.short(out)))
         got = out[1]
@@ -170,7 +188,7 @@ def check_queries(plan, cfg, mab, arms, dec, rew, cx, origin, ev, state):
                 if not all(v != v for _, v in got):
                     raise Violation("empty_not_nan", "query %r has no row within radius %r (%s) but got %s"
                                     % (q, r, metric, ops.short(got)))
-                p = ops.apply_op(mab, ["predict", [q]])
+                p = ops.apply_op(mab, ["predict", rendered(plan, [q])])
                 probs = params.get("no_nhood_prob_of_arm")
                 if ops.is_exc(p) or p[0] != "S" or p[1] not in arms:
                     raise Violation("empty_predict", "predict on an empty neighbourhood gave %s" % ops.short(p))
@@ -213,7 +231,7 @@ def check_queries(plan, cfg, mab, arms, dec, rew, cx, origin, ev, state):
                                ops.short(wants[0][1]), len(candidates), dist),
                             bucket="neighbourhood_value:" + which)
         # predict must pick among the arms (arg-max relation is C09's)
-        p = ops.apply_op(mab, ["predict", [q]])
+        p = ops.apply_op(mab, ["predict", rendered(plan, [q])])
         if ops.is_exc(p) or p[1] not in arms:
             raise Violation("predict_member", "predict(%r) gave %s" % (q, ops.short(p)))
         state["nt"], state["skipped"] = nt, skipped
